@@ -19,6 +19,7 @@ import (
 
 // Script executed against the real code; every step is logged as one trace event (see spec/Trace_NackGen.tla).
 type vfNackScript struct {
+	Rev   bool   `json:"rev"` // interceptor level: the options are passed in the opposite order
 	Level string `json:"level"` // "log": receiveLog directly, "icpt": GeneratorInterceptor through its public interface
 	Size  uint16 `json:"size"`
 	Skip  uint16 `json:"skip"`
@@ -140,6 +141,11 @@ func vfRunIcpt(t *testing.T, sc *vfNackScript, out *vfWriter) {
 		opts = append(opts, GeneratorStreamsFilter(func(i *interceptor.StreamInfo) bool { return i.SSRC%2 == 1 }))
 	case "none":
 		opts = append(opts, GeneratorStreamsFilter(func(*interceptor.StreamInfo) bool { return false }))
+	}
+	if sc.Rev { // the same options in the opposite order describe the same configuration
+		for i, j := 0, len(opts)-1; i < j; i, j = i+1, j-1 {
+			opts[i], opts[j] = opts[j], opts[i]
+		}
 	}
 	f, err := NewGeneratorInterceptor(opts...)
 	if err != nil {
